@@ -188,7 +188,8 @@ MUTANTS = [
     M("D6-reverted: numpy.isnan on Union[str, float]", [(F_BASE, "        if isna(discarded_value):", "        if isnan(discarded_value):"), (F_BASE, "from numpy import floating, integer, isfinite, nan, select", "from numpy import floating, integer, isfinite, isnan, nan, select")], "R-numeric-only-call", "update_discretizer", quick=True),
     M("serializer drops the str guard", [(F_SER, "    if not isinstance(value, str) and not isfinite(value):  # numpy.inf value", "    if not isfinite(value):  # numpy.inf value")], "R-numeric-only-call", "convert_value_to_base_type"),
     M("get_labels drops the str_nan guard", [(F_BASE, "quantiles = [val for val in quantiles if val != str_nan and isfinite(val)]", "quantiles = [val for val in quantiles if isfinite(val)]")], "R-numeric-only-call", "get_labels"),
-    M("labels paired with groups in content (dict) order", [(F_BASE, "            for group_of_values, label in zip(values, labels):\n                for value in values.get(group_of_values):\n                    label_per_value.update({value: label})\n", "            for group_values, label in zip(values.content.values(), labels):\n                label_per_value.update({value: label for value in group_values})\n")], "R-label-alignment", quick=True),
+    M("labels paired with groups in content (dict) order", [(F_BASE, "            for group_of_values, label in zip(groups, labels):\n                for value in values.get(group_of_values):\n                    label_per_value.update({value: label})\n", "            for group_values, label in zip(values.content.values(), labels):\n                label_per_value.update({value: label for value in group_values})\n")], "R-label-alignment", quick=True),
+    M("D24-reverted: labels paired with the raw list order although str_nan is labelled last", [(F_BASE, "            for group_of_values, label in zip(groups, labels):", "            for group_of_values, label in zip(values, labels):")], "R-label-alignment", quick=True),
     M("features_dropna not serialised", [(F_BASE, "            \"features_dropna\": self.features_dropna,\n", "")], "R-edits-serialised", "features_dropna"),
     M("labels not refreshed", [(F_BASE, "            self.labels_per_values = self._get_labels_per_values(self.output_dtype)\n\n\ndef transform_quantitative_feature", "\n\ndef transform_quantitative_feature")], "R-labels-refreshed", quick=True),
     M("labels refreshed for mode group only", [(F_BASE, _REFRESH, "            # updating Carver values_orders and labels_per_values\n            self.values_orders.update({feature: order})\n            if mode == 'group':\n                self.labels_per_values = self._get_labels_per_values(self.output_dtype)\n")], "R-labels-refreshed"),
